@@ -876,6 +876,78 @@ func (c *Ctx) scanMapOrder(d MapOrderDirective) ([]*Obligation, string) {
 					}
 				}
 				out = append(out, ob)
+				// accumulation: a slice built by appending keys or values met during the walk
+				// records Go's map order, unless the function sorts (a sorted walk)
+				var val ssa.Value
+				for _, r := range *nx.Referrers() {
+					if e, ok := r.(*ssa.Extract); ok && e.Index == 2 {
+						val = e
+					}
+				}
+				derived := map[ssa.Value]bool{}
+				var mark func(v ssa.Value)
+				mark = func(v ssa.Value) {
+					if v == nil || derived[v] || v.Referrers() == nil {
+						return
+					}
+					derived[v] = true
+					for _, r := range *v.Referrers() {
+						switch x := r.(type) {
+						case *ssa.MakeInterface, *ssa.ChangeType, *ssa.Convert, *ssa.Phi, *ssa.ChangeInterface, *ssa.FieldAddr, *ssa.IndexAddr, *ssa.UnOp, *ssa.Field, *ssa.Alloc:
+							mark(x.(ssa.Value))
+						case *ssa.BinOp:
+							switch x.Op {
+							case token.EQL, token.NEQ, token.LSS, token.GTR, token.LEQ, token.GEQ:
+							default:
+								mark(x)
+							}
+						case *ssa.Store:
+							if x.Val == v {
+								mark(x.Addr) // a composite literal / varargs slot holding it
+								if ia, ok := x.Addr.(*ssa.IndexAddr); ok {
+									mark(ia.X)
+								}
+							}
+						case *ssa.Slice:
+							mark(x)
+						}
+					}
+				}
+				mark(key)
+				mark(val)
+				sorts := false
+				for _, bb := range fn.Blocks {
+					for _, in2 := range bb.Instrs {
+						if ci, ok := in2.(ssa.CallInstruction); ok {
+							if cal := ci.Common().StaticCallee(); cal != nil && cal.Pkg != nil && cal.Pkg.Pkg.Path() == "sort" {
+								sorts = true
+							}
+						}
+					}
+				}
+				var acc []string
+				for bb := range body {
+					for _, in2 := range bb.Instrs {
+						call, ok := in2.(*ssa.Call)
+						if !ok {
+							continue
+						}
+						if bi, ok := call.Call.Value.(*ssa.Builtin); ok && bi.Name() == "append" {
+							for _, a := range call.Call.Args[1:] {
+								if derived[a] {
+									acc = append(acc, "append at "+c.posStr(call.Pos()))
+								}
+							}
+						}
+					}
+				}
+				ob2 := &Obligation{Name: fmt.Sprintf("%s#order.accumulate#%d", name, k-1), Kind: "order.accumulate", Fn: name, Backend: "ssa-scan", Status: "ok", Pos: c.posStr(nx.Pos())}
+				if len(acc) > 0 && !sorts {
+					ob2.Status = "failed"
+					sort.Strings(acc)
+					ob2.Model = "range over a map appends what it meets to a slice and the function never sorts: the slice records Go's map order: " + strings.Join(acc, "; ")
+				}
+				out = append(out, ob2)
 			}
 		}
 	}
